@@ -109,15 +109,27 @@ func HarnessCacheTroubleAnywhere() {
 	vReach([]string{"unknown-resource", "fresh-entry", "stale-entry"}[pre])
 	kind := symChoice(2)
 	vClockFreeze(true)
-	vInterpose(func() {
+	second := func() {
 		if kind == 0 {
 			e.p.cache.Delete(key)
 		} else {
 			e.p.cache.Cache(key, &bodyReader{data: []byte("NEW"), failAt: -1}, now.Add(time.Hour), cachedRequestInfo{ETag: "\"n\"", Header: hdr()})
 		}
-	}, 1)
+	}
+	// conc=0: the other request's operation runs atomically at one scheduling point of the
+	// request; conc=n: both run concurrently with at most n context switches
+	conc := vParam("conc", 0)
+	if conc > 0 {
+		vConcurrent(second, conc)
+	} else {
+		vInterpose(second, 1)
+	}
 	c := e.plain(newReq("GET", "o.test", "/w", "", nil))
-	vInterpose(nil, 0)
+	if conc > 0 {
+		vJoin()
+	} else {
+		vInterpose(nil, 0)
+	}
 	if vInterposed() > 0 {
 		vReach("other-request-interfered")
 	}
